@@ -39,3 +39,37 @@ def flip_bits(data, positions):
     for p in positions:
         b[p // 8] ^= 1 << (p % 8)
     return bytes(b)
+
+
+def frames_present(stream):
+    """every link frame that is present INTACT in a byte stream, wherever it starts (start octets, header CRC and
+    every block CRC valid): list of (ctrl, dest, src, payload).  Independent reference for "was this frame in the
+    stream": a truncated frame directly followed by another frame's 10-octet header can form such a frame by
+    construction (8 octets + their CRC are a valid body block) - the format is ambiguous there."""
+    out = []
+    n = len(stream)
+    for i in range(n - 9):
+        if stream[i] != 0x05 or stream[i + 1] != 0x64:
+            continue
+        hdr = stream[i:i + 8]
+        if with_crc(hdr) != stream[i:i + 10]:
+            continue
+        L = hdr[2]
+        if L < 5:
+            continue
+        need = L - 5
+        pos = i + 10
+        payload = b""
+        ok = True
+        while need > 0:
+            k = min(16, need)
+            blk = stream[pos:pos + k + 2]
+            if len(blk) < k + 2 or with_crc(blk[:k]) != blk:
+                ok = False
+                break
+            payload += blk[:k]
+            pos += k + 2
+            need -= k
+        if ok:
+            out.append((hdr[3], hdr[4] | (hdr[5] << 8), hdr[6] | (hdr[7] << 8), payload))
+    return out
